@@ -1,9 +1,9 @@
-\* C20 thorough: two gap deviations
+\* C20 thorough: every pair of gap deviations on every statement shape
 SPECIFICATION LSpec
 CONSTANTS
   Foci = {"lit"}
   Sizes <- SmallSizes
-  LFoci = {"stmt", "decl", "pairs"}
+  LFoci = {"stmt", "pairs"}
   Bases = {"canon"}
   MaxGap = 2
   MaxCm = 0
